@@ -9,8 +9,8 @@ Definition Fis_neg_zero (x : float) : bool :=
   match Prim2SF x with S754_zero true => true | _ => false end.
 Definition Fis_pos_zero (x : float) : bool :=
   match Prim2SF x with S754_zero false => true | _ => false end.
-Definition Fnext_up (x : float) : float := if Fis_neg_zero x then 0 else next_up x.
-Definition Fnext_dn (x : float) : float := if Fis_pos_zero x then 0 else next_down x.
+Definition Fnext_up (x : float) : float := next_up x.
+Definition Fnext_dn (x : float) : float := next_down x.
 Definition FofZ (z : Z) : float :=
   match z with
   | Z0 => 0
